@@ -149,7 +149,9 @@ def u_mh(ip):
     c = ip.ctx
     rec = {}
     install(ip, rec)
-    k = sym_kernel(ip, "MH", keys=("a",))
+    # the user's proposal also returns an entry that is not one of the kernel's position keys (a cached predictor that its correction accounts for):
+    # the density ratio and the declared correction must be taken at the SAME realised proposal, so the position goes on as the user returned it
+    k = sym_kernel(ip, "MH", keys=("a",), extra_proposal_keys=("cached_eta",))
     ks = sym_da_state(ip, "MH")
     ms, key = z3.Const("ms", U), z3.Const("key", U)
     ip.call(method(ip, k, "_standard_transition"), [key, ks, ms, sym_epoch_state(ip)], {})
@@ -157,7 +159,7 @@ def u_mh(ip):
     ma = rec.get("mh_args")
     c.oblige("mh_step_called", ma is not None and len(ma) == 5)
     if ma is not None and len(ma) == 5:
-        want_pos = {"a": ip.uf("user_prop", z3.Const("str:a", U), k0, ms, ks.f["step_size"])}
+        want_pos = {kk: ip.uf("user_prop", z3.Const(f"str:{kk}", U), k0, ms, ks.f["step_size"]) for kk in ("a", "cached_eta")}
         c.oblige("user_position_forwarded", ip.to_U(ma[2]).eq(ip.to_U(want_pos)))
         c.oblige("user_correction_forwarded", ma[4] == ip.uf("user_corr", k0, ms, ks.f["step_size"], sort=Real))
         c.oblige("accept_step_uses_other_child", ip.to_U(ma[0]).eq(ip.uf("split", key, z3.IntVal(1))))
